@@ -346,13 +346,12 @@ func (f *frame) havocAllPreservingLocals(st *State, in, why string) {
 	sort.Strings(keep)
 	for _, srt := range vc.allHeaps() {
 		h := vc.fresh(f.prefix+"H"+srt+"_havoc", vc.heapSort(srt))
-		if len(keep) > 0 {
-			var cs []string
-			for _, k := range keep {
-				cs = append(cs, Eq(App("rt", "l!"), App("rt", k)))
-			}
-			vc.assert(fmt.Sprintf("(forall ((l! Loc)) (! (=> %s (= (select %s l!) (select %s l!))) :pattern ((select %s l!))))", Or(cs...), h, pre.H[srt], h))
+		// ghost cells (negative root ids) are beyond the reach of program code
+		cs := []string{App("<", App("rt", "l!"), "(- 1)")}
+		for _, k := range keep {
+			cs = append(cs, Eq(App("rt", "l!"), App("rt", k)))
 		}
+		vc.assert(fmt.Sprintf("(forall ((l! Loc)) (! (=> %s (= (select %s l!) (select %s l!))) :pattern ((select %s l!))))", Or(cs...), h, pre.H[srt], h))
 		st.H[srt] = h
 	}
 	tp := vc.fresh(f.prefix+"top_havoc", "Int")
@@ -626,6 +625,16 @@ func (f *frame) execRunDefers(in string, st *State) {
 		d := f.defers[i]
 		cc := d.call.Common()
 		g := And(in, d.guard)
+		if d.inLoop {
+			// registered once per loop iteration: the call runs an unknown number
+			// of times; only its frame is modelled (program memory is havocked,
+			// ghost state and non-escaping locals are kept)
+			if callee := cc.StaticCallee(); callee == nil || !vc.isPureExternal(callee.RelString(nil)) {
+				vc.note("deferred call registered inside a loop in %s: modelled as havoc of program memory at function exit", FuncName(f.fn))
+				f.havocAllPreservingLocals(st, in, "deferred call in loop")
+			}
+			continue
+		}
 		var args []Val
 		for _, a := range cc.Args {
 			args = append(args, f.val(a))
